@@ -199,6 +199,34 @@ def run(tier, seed, replay=None):
                 continue
             rep.oracle_failures.append({"clause": "trait defaults must survive for impls written outside the invocation", "item": nme,
                                         "stdout": r.get("stdout", "")[:100], "errors": PC.error_lines(r)[:3], "program": body})
+    # 4b. an invocation consisting of the trait definition alone still adds exactly that trait
+    alone = []
+    for p in tplans[:8]:
+        q = copy.deepcopy(p)
+        q.families = []
+        q.probes = []
+        req = []
+        for k, nme, d in q.items:
+            if d:
+                continue
+            if k == "const":
+                req.append(f"const {nme}: &'static str = \"third\";")
+            elif k == "fn":
+                req.append(f"fn {nme}() -> &'static str {{ \"third\" }}")
+            elif k == "type":
+                req.append(f"type {nme} = u8;")
+        if q.trait_generics:
+            continue
+        uns = "unsafe " if q.trait_unsafe else ""
+        body = q.prelude() + "\ndisjoint_impls::disjoint_impls! { " + q.trait_text() + " }\npub struct Third;\n" + \
+            f"{uns}impl {q.trait_name} for Third {{ {' '.join(req)} }}\nfn main() {{}}\n"
+        alone.append(body)
+    res = C.run_programs(so, [("o", b) for b in alone], mode="check")
+    for body, r in zip(alone, res):
+        rep.count("trait-only-invocation")
+        if r["rc"] != 0:
+            rep.oracle_failures.append({"clause": "an invocation that only defines the trait must still add that trait to the scope",
+                                        "errors": PC.error_lines(r)[:3], "program": body})
     # 5. user items named like a helper (D11)
     d11 = []
     for p in tplans[:6]:
